@@ -293,11 +293,14 @@ func (s *server) start() {
 	must(step{"POST", "/kvsafe/key/s", []byte("sentinel value")})
 	must(step{"POST", "/lm/blocks", frame(0, 0, 0, gz(three))})
 	must(step{"POST", "/lm2/blocks", frame(0, 0, 0, gz(three))})
+	// a second stored block next to the first (lists of stored blocks: listURLCases)
+	must(step{"POST", "/lm/blocks", frame(1, 0, 0, gz(three))})
 	must(step{"POST", "/lm/index/20", marshalIndex(protoIndex(20, map[uint64]map[uint64]uint32{blockKey(5, 5, 5): {20: 100}}))})
 	must(step{"POST", "/lm/mappings", marshalMappings(&proto.MappingOp{Mutid: 1, Mapped: 50, Original: []uint64{51, 52}})})
 	must(step{"POST", "/roi/roi", []byte(`[[1,1,1,3],[1,2,1,3]]`)})
 	must(step{"POST", "/kv/key/a", []byte("hello")})
 	must(step{"POST", "/img/raw/0_1_2/16_16_16/0_0_0", bytes.Repeat([]byte{7}, 16*16*16)})
+	must(step{"POST", "/img/raw/0_1_2/16_16_16/16_0_0", bytes.Repeat([]byte{9}, 16*16*16)})
 	// labelmap with down-resolution levels (POST blocks?downres=true) and one for mutation histories
 	inst("labelmap", "lmd", map[string]string{"BlockSize": "16,16,16", "MaxDownresLevel": "2"})
 	inst("labelmap", "lmm", map[string]string{"BlockSize": "16,16,16"})
@@ -750,6 +753,14 @@ func main() {
 		// the remaining hostile URLs are skipped so that a broken tree is still reported quickly
 		if c.Fam == 10 && srv.deaths >= 15 {
 			run.Count("skipped:hostile-url-after-15-deaths-or-hangs")
+			continue
+		}
+		addReq(run, c)
+	}
+	// list-valued URL parameters: stored elements followed or preceded by malformed ones
+	for _, c := range listURLCases(rng, o.Thorough()) {
+		if srv.deaths >= 25 {
+			run.Count("skipped:list-url-after-25-deaths-or-hangs")
 			continue
 		}
 		addReq(run, c)
